@@ -683,7 +683,7 @@ template <class G> int runOne(const std::string &prop, const std::string &name, 
             else checkC19(g, m, f, T::fam == WEIGHTED);
             for (auto &it : f.items) sink.fail(it.first, it.second);
         };
-        if (args.has("ops")) return replayHistory<G>(cfg, prop, args);
+        if (args.has("ops")) return replayHistory<G>(cfg, prop, args, ex.extraStateCheck);
         ex.run();
     } else if (source == "e2") run.sourceE2(n, !args.has("noloops"), (unsigned)args.getInt("maxedges", 1000));
     else if (source == "lists") run.sourceLists(n);
@@ -732,7 +732,7 @@ template <class G> int runOne(const std::string &prop, const std::string &name, 
     std::string out = args.get("out", "");
     if (!out.empty() && !rep.write(out)) return 2;
     printf("%s %s: graphs=%llu cases=%llu violations=%llu worst-work-ratio=%.3f exhaustive=%d wall=%.1fs\n", prop.c_str(), rep.config.c_str(), g_graphs, g_cases, rep.violations(), g_maxWorkRatio, (int)rep.exhaustive, clock_().elapsed());
-    return 0;
+    return args.has("exitcode") && rep.violations() ? 1 : 0;
 }
 
 int main(int argc, char **argv) {
